@@ -1272,28 +1272,41 @@ func ruleP16DurationParts(p *Prog, r *Report) {
 	if !r.anchorFn(rule, f, "klog.NewDurationFromString") {
 		return
 	}
+	// some branch edge on which both digit groups are known to be empty leads to nothing but
+	// rejections (the rejecting return may be shared with other reasons, e.g. "no match at all")
 	okd := false
-	for _, ret := range returnsOf(f) {
-		if !isNilConst(retResult(ret, 0)) {
-			continue
-		}
-		empty := map[int]bool{}
-		for _, g := range guardsOf(ret.Block()) {
-			bo, ok := g.Cond.(*ssa.BinOp)
-			if !ok {
+	emptyGroups := func(gs []Guard, empty map[int]bool) {
+		for _, g := range gs {
+			x, isEmpty, isG := emptyGuard(g)
+			if !isG || !isEmpty {
 				continue
 			}
-			s, isS := constString(bo.Y)
-			if !isS || s != "" || (bo.Op == token.EQL) != g.Pol {
-				continue
-			}
-			if _, grp, okm := p.patternOfMatch(bo.X); okm {
+			if _, grp, okm := p.patternOfMatch(x); okm {
 				empty[grp] = true
 			}
 		}
-		// hours are group 3 (or the enclosing 2), minutes group 5 (or 4)
-		if (empty[3] || empty[2]) && (empty[5] || empty[4]) {
-			okd = true
+	}
+	for _, b := range f.Blocks {
+		iff, isIf := b.Instrs[len(b.Instrs)-1].(*ssa.If)
+		if !isIf {
+			continue
+		}
+		for si, succ := range b.Succs {
+			empty := map[int]bool{}
+			emptyGroups(guardsOf(b), empty)
+			emptyGroups(flattenCond(iff.Cond, si == 0, iff), empty)
+			// hours are group 3 (or the enclosing 2), minutes group 5 (or 4)
+			if !((empty[3] || empty[2]) && (empty[5] || empty[4])) {
+				continue
+			}
+			if rejectComplete(succ, func(ret *ssa.Return) string {
+				if !isNilConst(retResult(ret, 0)) {
+					return "returns a duration"
+				}
+				return ""
+			}) == "" {
+				okd = true
+			}
 		}
 	}
 	r.check(okd, rule, "both-empty-rejected", p.pos(f.Pos()), "a text without hour and minute part is rejected", "no rejection is guarded by 'hour group empty and minute group empty': a bare sign (\"-\", \"+\") or the empty text is accepted as a zero duration")
